@@ -93,15 +93,7 @@ def reverse_worker(job):
             return nm.split("[m|", 1)[1][:-1] in flip_names
         return False
 
-    def consistent_t(net):
-        # hydraulics-only runs take temperatures as inputs: a temperature-fixing feeder carries the
-        # start temperature of its junction (otherwise T_out start values make the input itself
-        # direction dependent, see DESIGN section 8)
-        for tbl, jc, tc in (("ext_grid", "junction", "t_k"), ("circ_pump_pressure", "flow_junction", "t_flow_k"),
-                            ("circ_pump_mass", "flow_junction", "t_flow_k")):
-            if tbl in net and len(net[tbl]):
-                net[tbl][tc] = np.array([net.junction.at[int(j), "tfluid_k"] for j in net[tbl][jc].values], dtype=object)
-    ed = consistent_t if job["pfmode"] == "hydraulics" else None
+    ed = None
     ra = equiv.RunSpec(a, kw, edit_fn=ed)
     rb = equiv.RunSpec(b, kw, edit_fn=ed)
     rb.name_map = name_map
@@ -140,7 +132,9 @@ def reverse_worker(job):
                     out.append(("res_%s.%s[%s] (negated)" % (t, c, ix), x, (-y if not is_nan(y) else y)))
                     done.add(c)
             for c in ta.columns:
-                if c not in done and c != "t_outlet_k":
+                # t_outlet_k of a hydraulics-only run is the untouched start value of the thermal unknown (the
+                # temperature of the declared to-junction), not a result of the calculation
+                if c not in done and not (c == "t_outlet_k" and job["pfmode"] == "hydraulics"):
                     out.append(("res_%s.%s[%s]" % (t, c, ix), ta.at[ix, c], tb_.at[ix, c]))
         return out
 
@@ -156,11 +150,6 @@ def replay_reverse(rs):
         res = []
         for spec in (a, b):
             net, _ = nets.build(spec, nets.concrete_valuer(values))
-            if mode == "hydraulics":
-                for tbl, jc, tc in (("ext_grid", "junction", "t_k"), ("circ_pump_pressure", "flow_junction", "t_flow_k"),
-                                    ("circ_pump_mass", "flow_junction", "t_flow_k")):
-                    if tbl in net and len(net[tbl]):
-                        net[tbl][tc] = [float(net.junction.at[int(j), "tfluid_k"]) for j in net[tbl][jc].values]
             ok, err = concrete_pipeflow(net, use_numba=bool(rs.get("numba")), mode=mode, tol_p=1e-10, tol_m=1e-10,
                                         tol_res=1e-10, tol_T=1e-9, max_iter_hyd=300, max_iter_therm=300)
             res.append((net, ok, err))
@@ -170,7 +159,7 @@ def replay_reverse(rs):
         if not oka:
             continue
         worst, where = 0.0, None
-        for lab, x, y in _reverse_cells(na, nb, fl):
+        for lab, x, y in _reverse_cells(na, nb, fl, mode):
             try:
                 xn, yn = np.isnan(x), np.isnan(y)
             except TypeError:
@@ -186,7 +175,7 @@ def replay_reverse(rs):
     return False, {"both fail": True}
 
 
-def _reverse_cells(neta, netb, fl):
+def _reverse_cells(neta, netb, fl, mode="hydraulics"):
     out = []
     for lab, x, y in equiv.default_cells(neta, netb):
         key, rest = lab.split(".", 1)
@@ -204,9 +193,14 @@ def _reverse_cells(neta, netb, fl):
             if c1 in ta.columns and c2 in ta.columns:
                 out.append(("res_%s.%s[%s]" % (t, c1, ix), ta.at[ix, c1], -tb_.at[ix, c2]))
                 out.append(("res_%s.%s[%s]" % (t, c2, ix), ta.at[ix, c2], -tb_.at[ix, c1]))
+        done = {c for pair in SWAP_COLS + SWAP_NEG_COLS for c in pair}
         for c in NEG_COLS + (NEG_COLS_LIQUID if not neta.fluid.is_gas else []):
             if c in ta.columns:
                 out.append(("res_%s.%s[%s]" % (t, c, ix), ta.at[ix, c], -tb_.at[ix, c]))
+                done.add(c)
+        for c in ta.columns:
+            if c not in done and not (c == "t_outlet_k" and mode == "hydraulics"):
+                out.append(("res_%s.%s[%s]" % (t, c, ix), ta.at[ix, c], tb_.at[ix, c]))
     return out
 
 
@@ -517,8 +511,58 @@ def sections_worker(job):
                                 "values": {k: v for k, v in (m or {}).items() if isinstance(v, float)}}})
     elif r == 'unknown':
         job.setdefault("_inconclusive", []).append("section sum S=%d" % S)
+    # reported results of the pipe: at a fixed point of both descriptions (b = 0, x = 0) every res_pipe cell of the
+    # S-section pipe equals that of the 1-section pipe
+    stubs.CTX.spsolve_mode = 'fixed_point'
+    fp = {}
+    try:
+        for tag in ("A", "B"):
+            def run(tag=tag):
+                net, names = nets.build(specs[tag], nets.sym_valuer(), fluid=stubs.make_sym_fluid(False), skip=skip)
+                net.junction["tfluid_k"] = np.array([real("T_uniform")] * len(net.junction), dtype=object)
+                net.ext_grid["t_k"] = np.array([real("T_uniform")] * len(net.ext_grid), dtype=object)
+                pp.pipeflow(net, mode="hydraulics", use_numba=numba, friction_model=job["friction"])
+                return net
+            _, names = nets.build(specs[tag], nets.sym_valuer(), skip=skip)
+            A = list(ass) + nets.admissibility(names) + [z3.Real("T_uniform") > 0]
+            H.CTX.fixed = set()
+            ex = H.explore_witnesses(run, [H.Witness(dict(rows["B_path"].witness))], A)
+            exs.append(ex)
+            if ex.paths[0].exc is not None:
+                return finish_worker(job, ex, [], errors=["fixed-point run %s raised %r" % (tag, ex.paths[0].exc)])
+            fp[tag] = ex.paths[0]
+    finally:
+        stubs.CTX.spsolve_mode = 'free'
+    qa, qb = fp["A"], fp["B"]
+    hy = list(ENG.assumptions) + qa.facts + qb.facts + qa.path + qb.path + qa.defined + qb.defined + qa.assumed + qb.assumed \
+        + qa.lin + qb.lin
+    m0 = z3.Real("m[pipe:0:0]")
+    for k in range(1, S):
+        r, m, how = D.check(hy, z3.Real("m[pipe:0:%d]" % k) == m0, sample="sections flow continuity", timeout_ms=10000)
+        if r != 'unsat':
+            job.setdefault("_inconclusive", []).append("section flows equal at a fixed point (S=%d, k=%d): %s" % (S, k, r))
+    ta, tb = qa.value.res_pipe, qb.value.res_pipe
+    for col in ta.columns:
+        x, y = ta.at[0, col], tb.at[0, col]
+        if is_nan(x) or is_nan(y):
+            D.STATS.obligations += 1
+            if is_nan(x) and is_nan(y):
+                D.STATS.rewriter += 1
+                continue
+            r, m = 'sat', None
+        else:
+            goal = z3.substitute(_t(x) == _t(y), *subs)
+            r, m, how = D.check(hy, goal, sample="sections S=%d res_pipe.%s" % (S, col), timeout_ms=20000,
+                                witness=(qb.witness, H.witness_funcs()))
+        if r == 'sat':
+            viol.append({"fingerprint": "C09/sections/res_pipe." + col, "detail": {"S": S, "friction": job["friction"], "col": col},
+                         "replay": {"kind": "sections", "S": S, "friction": job["friction"], "numba": numba, "col": col,
+                                    "values": {k: v for k, v in (m or {}).items() if isinstance(v, float)}}})
+        elif r == 'unknown':
+            job.setdefault("_inconclusive", []).append("sections S=%d res_pipe.%s" % (S, col))
     ex = exs[0]
-    ex.paths += exs[1].paths
+    for e in exs[1:]:
+        ex.paths += e.paths
     return finish_worker(job, ex, viol)
 
 
@@ -546,6 +590,16 @@ def replay_sections(rs):
     if not (oka and okb):
         return oka != okb, {"errors": [ea, eb]}
     gap = float(np.max(np.abs(na.res_junction.p_bar.values - nb.res_junction.p_bar.values)))
+    cols = {}
+    for col in na.res_pipe.columns:
+        x, y = float(na.res_pipe.at[0, col]), float(nb.res_pipe.at[0, col])
+        if np.isnan(x) and np.isnan(y):
+            continue
+        g = abs(x - y) / (1e-9 + abs(x) + abs(y)) if not (np.isnan(x) or np.isnan(y)) else 1.0
+        if g > 1e-6:
+            cols[col] = [x, y]
+    if cols:
+        return True, {"res_pipe cells differ (1 section vs %d sections)" % S: cols}
     return gap > 1e-6, {"p_bar 1 section": na.res_junction.p_bar.tolist(), "p_bar %d sections" % S: nb.res_junction.p_bar.tolist()}
 
 
@@ -652,7 +706,7 @@ def reversible_positions(spec):
 def jobs(tier, seed):
     import itertools
     out = []
-    rev_specs = [catalog.w_line3(), catalog.w_mesh4(), catalog.g_mesh(), catalog.w_circ_mass()]
+    rev_specs = [catalog.w_line3(), catalog.w_mesh4(), catalog.g_mesh(), catalog.w_circ_mass(), catalog.w_heat_line()]
     if tier == "thorough":
         rev_specs += [catalog.w_components(), catalog.g_line3(), catalog.g_components(), catalog.w_oos()]
     rng = random.Random(9000 + seed)
@@ -670,7 +724,7 @@ def jobs(tier, seed):
                 subsets.append(tuple(rng.sample(pos, 3)))
         for sub in subsets:
             for numba in ((False, True) if len(sub) == 1 else (False,)):
-                mode = "sequential" if s["name"].startswith("w_circ") else "hydraulics"
+                mode = "sequential" if s["name"].startswith(("w_circ", "w_heat")) else "hydraulics"
                 out.append({"name": "reverse/%s/%s/%s" % (s["name"], "-".join(map(str, sub)), "numba" if numba else "numpy"),
                             "kind": "reverse", "spec": s, "which": list(sub), "numba": numba, "pfmode": mode})
     for s in [catalog.w_line3(), catalog.w_mesh4(), catalog.g_line3()]:
